@@ -237,6 +237,14 @@ template <class TM, class SM> struct Harness {
         const Sp &after = builtin ? *opt.getOptimalSpline() : ws.spline;
         if (!mat_bits_equal(after.getTrajectory().getCoefficients(), wf.spline.getTrajectory().getCoefficients()) || after.getTimeSegments() != wf.spline.getTimeSegments()) { fail("selfcheck-restore", "workspace spline after checkGradients is not the spline of the checked decision vector"); return; }
       }
+      // a SECOND self-check at another decision vector of the same size on the same workspace (explicit and built-in): its report must be
+      // the one a fresh workspace gives -- nothing of the first check (probe point, scratch gradient) may survive (seeded change C19-m5)
+      { Eigen::VectorXd x2 = x; for (int i = 0; i < n; ++i) x2(i) += (((i * 5) % 7) - 3) / 64.0;
+        auto at = [&](const Eigen::VectorXd &xx, WS *w) { return three ? opt.checkGradients(xx, tc, wc, rc, w, eps, tol) : opt.checkGradients(xx, tc, rc, w, eps, tol); };
+        WS wf; auto rf = at(x2, &wf);
+        for (int builtin = 0; builtin < 2; ++builtin) { WS wp; (void)at(x, builtin ? nullptr : &wp); auto r2 = at(x2, builtin ? nullptr : &wp); ++c.st.comparisons;
+          if (r2.valid != rf.valid || r2.numerical.size() != n || r2.analytical.size() != n || !bits_equal(r2.numerical.data(), rf.numerical.data(), n) || !bits_equal(r2.analytical.data(), rf.analytical.data(), n) || !bits_equal(r2.error_norm, rf.error_norm)) {
+            fail("selfcheck-second-use", fmt("a second checkGradients at another decision vector on the same %s workspace reports valid=%d error_norm=%.6g; on a fresh workspace valid=%d error_norm=%.6g (three-cost=%d)", builtin ? "built-in" : "explicit", (int)r2.valid, r2.error_norm, (int)rf.valid, rf.error_norm, three)); return; } } }
       // tol is honoured
       { WS ws; auto r2 = run(three, &ws, eps, 1e-300); ++c.st.comparisons; if (r2.valid && r2.error_norm > 0) { fail("selfcheck-eps-tol", "tol is ignored"); return; } }
       // every single wrong gradient component
@@ -252,6 +260,11 @@ template <class TM, class SM> struct Harness {
         WS ws; auto r = run(three, &ws, eps, tol); ++c.st.comparisons;
         tc = tcs; wc = wcs; rc = rcs;
         const char *kn = pp.kind == 0 ? "time-cost" : pp.kind == 1 ? "waypoint-cost" : "running-cost";
+        // the same component delivered as NaN / +Inf (finite cost): an influential component that is not a number can never be "within tolerance"
+        if (e >= 10 * tol) for (double bad : {std::numeric_limits<double>::quiet_NaN(), std::numeric_limits<double>::infinity()}) {
+          if (pp.kind == 0) { tc.pert_comp = pp.a; tc.pert = bad; } else if (pp.kind == 1) { wc.pert_row = pp.a; wc.pert_col = pp.b; wc.pert = bad; } else { rc.pert_out = pp.a; rc.pert_comp = pp.b; rc.pert = bad; }
+          WS wb; auto rb = run(three, &wb, eps, tol); ++c.st.comparisons; tc = tcs; wc = wcs; rc = rcs;
+          if (rb.valid) { fail("selfcheck-misses-wrong-gradient", fmt("%s gradient component (%d,%d) is %s (the cost is finite and the component influences the gradient) but valid=true, error_norm=%.3g", pp.kind == 0 ? "time-cost" : pp.kind == 1 ? "waypoint-cost" : "running-cost", pp.a, pp.b, std::isnan(bad) ? "NaN" : "+Inf", rb.error_norm)); return; } }
         if (e >= 10 * tol) { c.st.cls("C19: perturbed component influences the gradient -> must fail"); if (r.valid) { fail("selfcheck-misses-wrong-gradient", fmt("%s gradient component (%d,%d) wrong by %.3g (analytic gradient off by %.3g) but valid=true, error_norm=%.3g, eps %g tol %g", kn, pp.a, pp.b, delta, e, r.error_norm, eps, tol)); return; } }
         else if (e == 0.0) { c.st.cls("C19: perturbed component has no influence -> must still pass"); if (!r.valid) { fail("selfcheck-false-alarm", fmt("%s gradient component (%d,%d) does not influence the gradient, yet valid=false", kn, pp.a, pp.b)); return; } }
         else c.st.cls("C19: perturbation influence between 0 and 10 tol (verdict not asserted)");
